@@ -100,6 +100,7 @@ Definition symlink_op (env : envmap) (m : mfs) (link target : list N) : mfs * mr
           match resolve env m t with
           | inr e => (m, inr e)
           | inl tp =>
+              if bool_decide (is_Some (m_ents m !! lp)) then (m, inr EExistsAlready) else   (* a link is only ever created *)
               match lp with
               | [] => (m, inr EParentNotFound)           (* link_to: self.path.dir()? on "/" *)
               | _ =>
@@ -159,6 +160,7 @@ Definition remove_op (env : envmap) (m : mfs) (s : list N) : mfs * mres unit :=
   match resolve env m s with
   | inr e => (m, inr e)
   | inl p =>
+      if negb (bool_decide (is_Some (m_ents m !! p))) then (m, inl tt) else      (* nothing to remove *)
       let nonempty := match m_ents m !! p with
                       | Some e => match e_files e with Some fs => negb (bool_decide (fs = ∅)) | None => false end
                       | None => false
@@ -303,6 +305,18 @@ Definition move_validate (env : envmap) (m : mfs) (src dst : list N) : move_plan
                   | None => MvErr EDoesNotExist
                   | Some x =>
                       if negb (e_dir x && negb (e_link x)) then MvErr EIsNotDir else
+                      (* a directory can't take the place of a file or link *)
+                      let clash := match m_ents m !! dt with
+                                   | Some y => is_dir_at m sp && negb (e_dir y && negb (e_link y))
+                                   | None => false
+                                   end in
+                      if clash then MvErr EIsNotDir else
+                      (* ... nor a file or link that of a directory *)
+                      let clash2 := match m_ents m !! dt with
+                                    | Some y => negb (is_dir_at m sp) && (e_dir y && negb (e_link y))
+                                    | None => false
+                                    end in
+                      if clash2 then MvErr EIsNotFile else
                       let blocked := match m_ents m !! dt with
                                      | Some y => match e_files y with Some fs => negb (bool_decide (fs = ∅)) | None => false end
                                      | None => false
@@ -330,6 +344,11 @@ Definition set_cwd_op (env : envmap) (m : mfs) (s : list N) : mfs * mres rpath :
   | inr e => (m, inr e)
   | inl p => match m_ents m !! p with
              | None => (m, inr EDoesNotExist)
-             | Some _ => (mkMfs p (m_root m) (m_ents m) (m_data m), inl p)
+             | Some x =>
+                 if e_dir x then
+                   (* a link to a directory is resolved as chdir(2) does *)
+                   let cwd := if e_link x then match e_alt x with Some t => t | None => [] end else p in
+                   (mkMfs cwd (m_root m) (m_ents m) (m_data m), inl p)
+                 else (m, inr EIsNotDir)
              end
   end.
